@@ -9,6 +9,9 @@ reference table - and compared by polynomial identity:
                   (Square: sum of squared weighted residuals)
  S2 R-ALG(d1)     d/dyhat of the unweighted loss element == diff_loss
  S3 R-ALG(d2)     d/dyhat of diff_loss == diff2Loss
+ S4 R-SHAPEIN     every kernel method gives the same values for a single-column prediction (n,1) - which is what
+                  BaseLoss hands over for one observed state - as for the flat vector (n,), and the derivative
+                  methods return one value per observation
 """
 import ast
 
@@ -123,7 +126,7 @@ def check(repo, res, tier):
     res.rule("R-ALG(d1)", "d/dyhat of the unweighted loss element == diff_loss")
     res.rule("R-ALG(d2)", "d/dyhat of diff_loss == diff2Loss")
     res.s_clauses = ["S1 value", "S2 first derivative", "S3 second derivative"]
-    res.n_clauses = ["input-shape handling (ravel of single-column inputs) and spread broadcasting (runtime shapes)",
+    res.n_clauses = ["spread broadcasting in the constructors (runtime shapes)",
                      "floating-point evaluation; validity-domain checks in the constructors"]
     n = 0
     for name in KERNELS:
@@ -172,6 +175,7 @@ def check(repo, res, tier):
         except A.Undecided as e:
             res.undecided("R-ALG(d1)", kcls.methods.get("diff_loss") or name, "derivatives", "cannot bring %s derivatives into canonical form: %s" % (name, e))
     res.floor("kernel methods brought to canonical form", n, 15)
+    _check_shape_inputs(repo, res)
     # residual is y - yhat (times w)
     base = repo.cls(M.M_LOSSTYPE, "Baseloss_Type")
     try:
@@ -181,3 +185,88 @@ def check(repo, res, tier):
         res.check(r == (A.sym("y") - A.sym("yhat")), "R-ALG(value)", f, "residual(unweighted)", "unweighted residual = y - yhat", "unweighted residual is %r" % r, node=f.node)
     except A.Undecided as e:
         res.undecided("R-ALG(value)", base.methods["residual"], "residual", str(e))
+
+
+def _check_shape_inputs(repo, res):
+    from ..core.absint import Abs, Obj, Tok, Raised
+    from ..core.symarr import SymArr, np_summaries
+    res.rule("R-SHAPEIN", "kernel methods agree between a flat prediction vector and a single-column prediction")
+    distn = repo.module(M.M_DISTN)
+    n = 2
+    base_summ = np_summaries()
+
+    def formula(names, src):
+        def fn(*args, **kw):
+            env = {"loc": A.Rat.const(0), "scale": A.Rat.const(1)}
+            env.update(dict(zip(names, args)))
+            env.update(kw)
+            ab = Abs(env, {}, dict(base_summ), None)
+            return ab.ev(ast.parse(src, mode="eval").body)
+        return fn
+    for callee, (names, src) in SPEC.SCIPY_LOG.items():
+        base_summ[callee] = formula(names, src)
+
+    def chained_distn(name):
+        fn = distn.functions[name]
+
+        def call(*a, **kw):
+            ab = Abs({}, {}, summ, None)
+            b = dict(zip(fn.params, a))
+            b.update(kw)
+            kind, v = ab.run_function(fn.node, b)
+            if kind == "raise":
+                raise Raised(v)
+            return v
+        return call
+    summ = dict(base_summ)
+    for name in ("dpois", "dnbinom", "nb2pmf", "gamma_mu_shape"):
+        if name in distn.functions:
+            summ[name] = chained_distn(name)
+    base = repo.cls(M.M_LOSSTYPE, "Baseloss_Type")
+    resid_fn = base.methods["residual"]
+
+    def residual(me, yhat, apply_weighting=True):
+        ab = Abs({}, {"bool": lambda v: isinstance(v, bool)}, summ, me)
+        kind, v = ab.run_function(resid_fn.node, {"yhat": yhat, "apply_weighting": apply_weighting})
+        if kind == "raise":
+            raise Raised(v)
+        return v
+    summ["Kernel.residual"] = residual
+    for name in KERNELS:
+        kcls = repo.cls(M.M_LOSSTYPE, name)
+        y = SymArr.symbols("y", (n,))
+        me = Obj("Kernel", _y=y, _w=SymArr.ones((n,)))
+        sp = SPEC.SPREAD[name]
+        if sp:
+            me.attrs[sp[0]] = SymArr.symbols(sp[1], (n,))
+            if name == "Normal":
+                me.attrs["_sigma2"] = me.attrs["_sigma"] ** 2
+        yh = SymArr.symbols("yhat", (n,))
+        for method in ("loss", "diff_loss", "diff2Loss"):
+            f = kcls.methods.get(method)
+            if f is None:
+                continue
+            outs = {}
+            try:
+                for form, val in (("flat", yh.copy()), ("column", yh.reshape(n, 1))):
+                    kind, out = Abs({}, {}, summ, me).run_function(f.node, {f.params[1]: val})
+                    outs[form] = (kind, out)
+            except A.Undecided as e:
+                res.undecided("R-SHAPEIN", f, method, "outside the modelled subset: %s" % e)
+                continue
+            (k1, a), (k2, b) = outs["flat"], outs["column"]
+            tag = "%s(column==flat)" % method
+            if k1 != "return" or k2 != "return":
+                res.violated("R-SHAPEIN", f, tag, "%s.%s raises for a %s prediction" % (name, method, "flat" if k1 != "return" else "single-column"), node=f.node)
+                continue
+            if method == "loss":
+                ok = A.lift(a) == A.lift(b)
+                why = "" if ok else "loss differs: %r for the vector, %r for the column" % (a, b)
+            else:
+                a_, b_ = SymArr.of(a) if not isinstance(a, SymArr) else a, SymArr.of(b) if not isinstance(b, SymArr) else b
+                ok = a_.shape == (n,) and b_.shape == (n,) and a_.same(b_)
+                why = "" if ok else "returns shape %s for the vector and shape %s for the single column%s" % (
+                    a_.shape, b_.shape, "" if a_.shape != b_.shape else " with different values")
+            res.check(ok, "R-SHAPEIN", f, tag, "%s.%s treats an (n,1) prediction like the (n,) vector" % (name, method),
+                      "%s.%s %s: for one observed state BaseLoss passes an (n,1) column, so the derivative no longer lines up with the observations" % (name, method, why),
+                      node=f.node)
